@@ -30,6 +30,7 @@ func init() {
 type stormStream struct {
 	sid       uint16
 	unordered bool
+	flips     bool // the ordering of this stream is changed by concurrent SetReliabilityParams calls (no FIFO model: exactly once, intact, complete)
 	st        [2]*simStream
 	writes    [2][]*msgRec // by sending side
 }
@@ -61,7 +62,7 @@ func scenarioStorm(w *world) {
 	nS := 1 + tp.intn(4)
 	var streams []*stormStream
 	for i := 0; i < nS; i++ {
-		streams = append(streams, &stormStream{sid: uint16(i + 1), unordered: tp.intn(3) == 0})
+		streams = append(streams, &stormStream{sid: uint16(i + 1), unordered: tp.intn(3) == 0, flips: tp.intn(4) == 0})
 	}
 	// both ends open every stream before the storm (one task per end)
 	opened := 0
@@ -166,7 +167,11 @@ func scenarioStorm(w *world) {
 						}
 					case op == 12:
 						c := w.beginCall(ep, "SetReliabilityParams", int(ss.sid))
-						s.SetReliabilityParams(ss.unordered, ReliabilityTypeReliable, 0)
+						u := ss.unordered
+						if ss.flips {
+							u = tp.intn(2) == 0
+						}
+						s.SetReliabilityParams(u, ReliabilityTypeReliable, 0)
 						w.endCall(c, nil)
 					case op == 13:
 						c := w.beginCall(ep, "BufferedAmount", int(ss.sid))
@@ -371,7 +376,7 @@ func scenarioStorm(w *world) {
 				}
 				ops = append(ops, linOp{enq: false, id: r.msg.id, call: r.invokeSeq, ret: r.returnSeq, client: int(r.invokeSeq)})
 			}
-			if !ss.unordered && len(ops) > 0 {
+			if !ss.unordered && !ss.flips && len(ops) > 0 {
 				w.lin = append(w.lin, linHistory{name: fmt.Sprintf("stream %d %s->%s", ss.sid, w.eps[from].name, w.eps[1-from].name), ops: ops})
 			}
 		}
@@ -562,8 +567,29 @@ func dWriteDeadlineMoved(w *world) {
 	w.net.partitioned = [2]bool{true, true}
 	var msgs []*msgRec
 	done := 0
+	// variant: a third task changes the stream's ordering while the write waits at the gate; the failed write must
+	// be undone with the ordering it was prepared with, or the messages written afterwards are lost
+	flip := w.wtape.intn(2) == 1
+	startUnordered := flip && w.wtape.intn(2) == 0
+	flipAfter := time.Duration(pick(w.wtape, 100, 100, 100, 99, 101, 95+w.wtape.intn(10))) * time.Millisecond
+	nTasks := 2
+	if flip {
+		nTasks = 3
+		w.sim.spawnClient("flipper.A", "A", func() {
+			defer func() { done++ }()
+			h := vsimBlocking("client.sleep")
+			time.Sleep(flipAfter)
+			vsimWoke(h)
+			if sa != nil {
+				sa.s.SetReliabilityParams(!startUnordered, ReliabilityTypeReliable, 0)
+			}
+		})
+	}
 	w.sim.spawnClient("writer.A", "A", func() {
 		defer func() { done++ }()
+		if flip {
+			sa.s.SetReliabilityParams(startUnordered, ReliabilityTypeReliable, 0)
+		}
 		m1 := w.newMsg(sa, 20000, false) // more than the initial congestion window: the rest stays pending
 		x.index[m1.ppi] = m1
 		msgs = append(msgs, m1)
@@ -576,6 +602,19 @@ func dWriteDeadlineMoved(w *world) {
 		x.index[m2.ppi] = m2
 		msgs = append(msgs, m2)
 		w.write(sa, m2)
+		if flip {
+			// whatever became of m2, what is written next (after the flip, with time to spare) must arrive
+			h := vsimBlocking("client.sleep")
+			time.Sleep(50 * time.Millisecond)
+			vsimWoke(h)
+			_ = sa.s.SetWriteDeadline(time.Now().Add(150 * time.Second))
+			for i := 0; i < 2; i++ {
+				m := w.newMsg(sa, 10+i, false)
+				x.index[m.ppi] = m
+				msgs = append(msgs, m)
+				w.write(sa, m)
+			}
+		}
 	})
 	w.sim.spawnClient("mover.A", "A", func() {
 		defer func() { done++ }()
@@ -603,7 +642,7 @@ func dWriteDeadlineMoved(w *world) {
 		}
 	})
 	w.run(func() bool {
-		if done < 2 {
+		if done < nTasks {
 			return false
 		}
 		for _, m := range msgs {
@@ -618,7 +657,7 @@ func dWriteDeadlineMoved(w *world) {
 	}
 	for _, m := range msgs {
 		if m.done && m.err == nil && m.delivered != 1 {
-			w.violate("C20", "lost-under-concurrency", "write of message %d (%d bytes) returned n=%d err=nil while another goroutine moved the write deadline, but the message was delivered %d times", m.id, m.size, m.n, m.delivered)
+			w.violate("C20", "lost-under-concurrency", "write of message %d (%d bytes) returned n=%d err=nil while other goroutines changed the write deadline (and, in the flip variant, the ordering) of the stream, but the message was delivered %d times", m.id, m.size, m.n, m.delivered)
 			return
 		}
 		if m.done && m.err != nil && m.delivered != 0 {
